@@ -11,7 +11,7 @@ Definition q_extra_bits := qtm_extra_bits.
 Definition q_length_base := qtm_length_base.
 Definition q_length_extra := qtm_length_extra.
 Definition M16 := 65536. Definition M32 := 4294967296.
-Definition QWD := 21%nat. Definition QJUNK := 170.
+Definition QWD := 21%nat. Definition QJUNK := 0.   (* the window is cleared at initialisation (qtmd_init) *)
 
 (* a model: syms as a list of (sym, cumfreq), length entries+1 *)
 Record qmodel := mkM { shiftsleft : N; entries : N; syms : list (N * N) }.
